@@ -348,7 +348,10 @@ class ProjectData(sc.prettyobj):
             spreadsheet = sc.Spreadsheet(spreadsheet)
 
         workbook = openpyxl.load_workbook(spreadsheet.tofile(), read_only=True, data_only=True)  # Load in read-only mode for performance, since we don't parse comments etc.
-        validate_category(workbook, "atomica:databook")
+        try:
+            validate_category(workbook, "atomica:databook")
+        except Exception as e:
+            raise InvalidDatabook(str(e)) from e
 
         # These sheets are optional - if none of these are provided in the databook
         # then they will remain empty
